@@ -142,7 +142,7 @@ def _ctor_cases(n, index, count):
             if route == "detour":
                 continue
             labels = list(range(n))
-            for parent in ["<absent>", None] + labels + [{"bad": "int"}]:
+            for parent in ["<absent>", None] + labels + [{"bad": "int"}, {"bad": "zero"}, {"bad": "empty-str"}, {"bad": "false"}, {"bad": "empty-tuple"}]:
                 for children in [None, []] + [s for s in shapes.sequences(labels, min(n, 2)) if s] + [[{"bad": "str"}]]:
                     k += 1
                     if k % count != index:
